@@ -34,7 +34,12 @@ def callNoAt (tr : Trace) (i : Nat) : Nat := cnt (tr.take (i + 1)) (· == .ecall
 
 /-- The events by which a request arrives. -/
 def Ev.isRead : Ev → Bool
-  | .readCall _ | .readNotif | .readCancel => true
+  | .readCall _ | .readNotif | .readCancel _ => true
+  | _ => false
+
+/-- A cancel notification was read. -/
+def Ev.isCancelRead : Ev → Bool
+  | .readCancel _ => true
   | _ => false
 
 /-- The request-read events of the trace in order: request `r` is `(reads tr)[r]`. -/
@@ -382,7 +387,7 @@ theorem monAfter_snoc (m : Mon) (tr : Trace) (l : Label) (o : Obs) :
 def newReq : Ev → Option MReq
   | .readCall id => some { id := some id, isNotif := false }
   | .readNotif => some {}
-  | .readCancel => some { isCancel := true }
+  | .readCancel _ => some { isCancel := true }
   | _ => none
 
 /-- What `Mon.book` does to the entry of request `r`. -/
@@ -425,7 +430,7 @@ theorem book_reqs_get (m : Mon) (p : Obs) (e : Ev) (r : Nat) :
     cases e with
     | readCall id => simp only [Mon.book, hread]; cases m.reqs[r]? <;> simp [updReq]
     | readNotif => simp only [Mon.book, hread]; cases m.reqs[r]? <;> simp [updReq]
-    | readCancel => simp only [Mon.book, hread]; cases m.reqs[r]? <;> simp [updReq]
+    | readCancel id => simp only [Mon.book, hread]; cases m.reqs[r]? <;> simp [updReq]
     | a1 r' =>
       simp only [Mon.book, modR]
       by_cases hrr : r' = r
@@ -535,7 +540,7 @@ end upd
 observations of `tr` have been processed. -/
 structure ReqHist (tr : Trace) (n : Nat) (r : Nat) (q : MReq) : Prop where
   kind : ∃ e, (reads tr)[r]? = some e ∧ e.isRead = true ∧ q.id = e.reqId ∧
-    q.isNotif = !e.reqId.isSome ∧ q.isCancel = (e == .readCancel)
+    q.isNotif = !e.reqId.isSome ∧ q.isCancel = e.isCancelRead
   okw : q.okWrites ≤ cnt tr (· == .wret (some r) .ok)
   p1c : q.p1count ≤ cnt tr (· == .p1 r)
   w1c : 0 < q.w1count ↔ ∃ t, arrived tr r t ∧ evAt tr t = some (.w1 r)
@@ -577,9 +582,9 @@ theorem reqHist_new {tr : Trace} {l : Label} {o : Obs} {q : MReq} (h : newReq (e
     fun h => not_arrived_of_le (evAt_snoc_le h)
   have hq : q.okWrites = 0 ∧ q.p1count = 0 ∧ q.w1count = 0 ∧ q.asyncd = false ∧ q.p2done = false ∧
       q.a2AfterShutdown = false ∧ q.peerCancelled = false ∧ q.started = false ∧
-      q.id = (evOf l).reqId ∧ q.isNotif = !(evOf l).reqId.isSome ∧ q.isCancel = (evOf l == .readCancel) := by
+      q.id = (evOf l).reqId ∧ q.isNotif = !(evOf l).reqId.isSome ∧ q.isCancel = (evOf l).isCancelRead := by
     generalize evOf l = e at h
-    cases e <;> simp only [newReq, Option.some.injEq, reduceCtorEq] at h <;> subst h <;> simp [Ev.reqId]
+    cases e <;> simp only [newReq, Option.some.injEq, reduceCtorEq] at h <;> subst h <;> simp [Ev.reqId, Ev.isCancelRead]
   obtain ⟨h1, h2, h3, h4, h5, h6, h7, h8, h9, h10, h11⟩ := hq
   refine ⟨⟨evOf l, ?_, hr, h9, h10, h11⟩, by omega, by omega, ?_, ?_, ?_, ?_, ?_, ?_⟩
   · simp [reads_snoc, hr]
@@ -752,12 +757,95 @@ theorem hist_mark {tr : Trace} {n : Nat} {m : Mon} (hn : tr.length ≤ n + 1) (h
 theorem hist_nil : Hist [] 0 {} := by
   refine ⟨?_, rfl, ?_, ?_, ?_, ?_, rfl, rfl, ?_⟩ <;> simp [evAt]
 
+/-! ### the cancel bookkeeping (`Mon.bookCancel`) -/
+
+theorem bookCancel_eq (m : Mon) (e : Ev) : ∃ a u, m.bookCancel e = { m with cancelAsked := a, unasked := u } := by
+  cases e <;> simp only [Mon.bookCancel]
+  case k1 id => split <;> exact ⟨_, _, rfl⟩
+  all_goals exact ⟨_, _, rfl⟩
+
+theorem bookCancel_prev (m : Mon) (e : Ev) : (m.bookCancel e).prev = m.prev := by
+  obtain ⟨a, u, h⟩ := bookCancel_eq m e; rw [h]
+
+/-- `bookCancel` touches only the cancel fields: the rest of the history is unchanged. -/
+theorem hist_bookCancel {tr : Trace} {n : Nat} {m : Mon} (e : Ev) (h : Hist tr n m) : Hist tr n (m.bookCancel e) := by
+  obtain ⟨a, u, he⟩ := bookCancel_eq m e
+  rw [he]
+  exact ⟨h.sent, h.ncalls, h.late, h.ctxd, h.rx, h.broken, h.idx, h.nreqs, h.req⟩
+
+theorem book_cancel_fields (m : Mon) (p : Obs) (e : Ev) :
+    (m.book p e).cancelAsked = m.cancelAsked ∧ (m.book p e).unasked = m.unasked := by
+  cases e <;> simp only [Mon.book]
+  all_goals (repeat' split)
+  all_goals first | exact ⟨rfl, rfl⟩ | (simp [modR]; done)
+
+/-- History of the cancel bookkeeping: every id in `unasked` stems from a `K1` that exceeded the number
+of cancellations read for that id; the cancellations read are covered by those still available plus
+the `K1`s seen. -/
+structure HistC (tr : Trace) (m : Mon) : Prop where
+  un : ∀ id ∈ m.unasked, ∃ k, k < tr.length ∧ evAt tr k = some (.k1 id) ∧
+    cnt (tr.take (k + 1)) (· == .readCancel id) < cnt (tr.take (k + 1)) (· == .k1 id)
+  bal : ∀ id, cnt tr (· == .readCancel id) ≤ m.cancelAsked.count id + cnt tr (· == .k1 id)
+
+theorem histC_nil : HistC [] {} := ⟨fun id h => by simp at h, fun id => by simp⟩
+
+theorem histC_bookCancel {tr : Trace} {m : Mon} (l : Label) (o : Obs) (h : HistC tr m) :
+    HistC (tr ++ [(l, o)]) (m.bookCancel (evOf l)) := by
+  have hold : ∀ id ∈ m.unasked, ∃ k, k < (tr ++ [(l, o)]).length ∧ evAt (tr ++ [(l, o)]) k = some (.k1 id) ∧
+      cnt ((tr ++ [(l, o)]).take (k + 1)) (· == .readCancel id) < cnt ((tr ++ [(l, o)]).take (k + 1)) (· == .k1 id) := by
+    intro id hid
+    obtain ⟨k, hk, he, hc⟩ := h.un id hid
+    refine ⟨k, by simp; omega, by rw [evAt_snoc_lt hk]; exact he, ?_⟩
+    rw [take_snoc_le (by omega)]; exact hc
+  cases he : evOf l with
+  | readCancel id0 =>
+    refine ⟨hold, fun id => ?_⟩
+    have := h.bal id
+    simp only [Mon.bookCancel, cnt_snoc, he, List.count_append]
+    by_cases hid : id0 = id
+    · subst hid; simp; omega
+    · have h1 : (Ev.readCancel id0 == Ev.readCancel id) = false := by simp [hid]
+      simp [h1, hid]; omega
+  | k1 id0 =>
+    simp only [Mon.bookCancel]
+    split
+    · rename_i hcon
+      refine ⟨hold, fun id => ?_⟩
+      have := h.bal id
+      simp only [cnt_snoc, he]
+      by_cases hid : id = id0
+      · subst hid
+        have hpos : 0 < m.cancelAsked.count id := List.count_pos_iff.mpr (List.contains_iff_mem.mp hcon)
+        rw [List.count_erase_self]; simp; omega
+      · have h1 : (Ev.k1 id0 == Ev.k1 id) = false := by simp; exact fun h => hid h.symm
+        rw [List.count_erase_of_ne hid]; simp [h1]; omega
+    · rename_i hcon
+      refine ⟨fun id hid => ?_, fun id => ?_⟩
+      · simp only [List.mem_append, List.mem_singleton] at hid
+        rcases hid with hid | rfl
+        · exact hold id hid
+        · refine ⟨tr.length, by simp, by simp [he], ?_⟩
+          have hb := h.bal id
+          have h0 : m.cancelAsked.count id = 0 := by
+            rw [List.count_eq_zero]; intro hm; exact hcon (List.contains_iff_mem.mpr hm)
+          rw [List.take_of_length_le (by simp)]
+          simp only [cnt_snoc, he]
+          simp; omega
+      · have := h.bal id
+        simp only [cnt_snoc, he]
+        simp; omega
+  | _ =>
+    refine ⟨hold, fun id => ?_⟩
+    have := h.bal id
+    simp only [Mon.bookCancel, cnt_snoc, he]
+    simpa using this
+
 /-- The monitor after one more step. -/
 theorem monStepT_fst (m : Mon) (l : Label) (o : Obs) :
-    (monStepT m l o).1 = { (m.book m.prev (evOf l)).mark o with prev := o } := rfl
+    (monStepT m l o).1 = { ((m.bookCancel (evOf l)).book m.prev (evOf l)).mark o with prev := o } := rfl
 
 theorem monStepT_snd (m : Mon) (l : Label) (o : Obs) :
-    (monStepT m l o).2 = chkAll (m.book m.prev (evOf l)) m.prev o (evOf l) := rfl
+    (monStepT m l o).2 = chkAll ((m.bookCancel (evOf l)).book m.prev (evOf l)) m.prev o (evOf l) := rfl
 
 /-- THE HISTORY INVARIANT: the monitor's state after `tr` is the history of `tr`. -/
 theorem hist_after : ∀ tr : Trace, Hist tr tr.length (monAfter {} tr) ∧ (monAfter {} tr).prev = lastObs tr := by
@@ -769,17 +857,34 @@ theorem hist_after : ∀ tr : Trace, Hist tr tr.length (monAfter {} tr) ∧ (mon
     obtain ⟨ih, hp⟩ := ih
     rw [monAfter_snoc, monStepT_fst, hp]
     refine ⟨?_, by simp⟩
-    have hb := hist_book l o ih
+    have hb := hist_book l o (hist_bookCancel (evOf l) ih)
     have := hist_mark (tr := tr ++ [(l, o)]) (n := tr.length) (by simp) hb
     simpa using this
+
+/-- The history of the cancel bookkeeping after `tr`. -/
+theorem histC_after : ∀ tr : Trace, HistC tr (monAfter {} tr) := by
+  intro tr
+  induction tr using snoc_induction with
+  | nil => exact histC_nil
+  | snoc tr x ih =>
+    obtain ⟨l, o⟩ := x
+    rw [monAfter_snoc, monStepT_fst]
+    have hb := histC_bookCancel l o ih
+    obtain ⟨h1, h2⟩ := book_cancel_fields ((monAfter {} tr).bookCancel (evOf l)) (monAfter {} tr).prev (evOf l)
+    exact ⟨fun id hid => hb.un id (by rw [← h2]; exact hid), fun id => by
+      have := hb.bal id; rw [← h1] at this; exact this⟩
 
 /-- What the checks see when the monitor takes the step that extends `tr` by `(l, o)`: the booked
 history (all events of the extended trace, the observations of `tr`). -/
 theorem hist_booked (tr : Trace) (l : Label) (o : Obs) :
-    Hist (tr ++ [(l, o)]) tr.length ((monAfter {} tr).book (lastObs tr) (evOf l)) ∧
+    Hist (tr ++ [(l, o)]) tr.length (((monAfter {} tr).bookCancel (evOf l)).book (lastObs tr) (evOf l)) ∧
+    HistC (tr ++ [(l, o)]) (((monAfter {} tr).bookCancel (evOf l)).book (lastObs tr) (evOf l)) ∧
     (monStepT (monAfter {} tr) l o).2 =
-      chkAll ((monAfter {} tr).book (lastObs tr) (evOf l)) (lastObs tr) o (evOf l) := by
+      chkAll (((monAfter {} tr).bookCancel (evOf l)).book (lastObs tr) (evOf l)) (lastObs tr) o (evOf l) := by
   obtain ⟨ih, hp⟩ := hist_after tr
-  exact ⟨hist_book l o ih, by rw [monStepT_snd, hp]⟩
+  have hb := histC_bookCancel l o (histC_after tr)
+  obtain ⟨h1, h2⟩ := book_cancel_fields ((monAfter {} tr).bookCancel (evOf l)) (lastObs tr) (evOf l)
+  refine ⟨hist_book l o (hist_bookCancel (evOf l) ih), ⟨fun id hid => hb.un id (by rw [← h2]; exact hid), fun id => by
+      have := hb.bal id; rw [← h1] at this; exact this⟩, by rw [monStepT_snd, hp]⟩
 
 end Conn
